@@ -573,7 +573,7 @@ def systematic_case(ctx, ex, adapter, role, code_i, line, hit, polls, wit_extra,
             env.submitted.append(jobB.id)
             t = threading.Thread(target=lambda: env.ex.submit(jobB), name="submitB", daemon=True)
             t.start()
-            if ex.wait_reached(0.25):
+            if ex.wait_reached(0.15):
                 ctx.count("park_points_reached")
                 ctx.nontrivial([adapter.label(), role, code.co_name, wit["line_offset"], hit, initial])
                 # let the background threads finish job A and go through their shutdown path
@@ -591,7 +591,7 @@ def systematic_case(ctx, ex, adapter, role, code_i, line, hit, polls, wit_extra,
             t.join(5)
         else:
             env.submit(jobA)
-            if ex.wait_reached(0.25):
+            if ex.wait_reached(0.15):
                 ctx.count("park_points_reached")
                 ctx.nontrivial([adapter.label(), role, code.co_name, wit["line_offset"], hit, initial])
                 env.submitted.append(jobB.id)
